@@ -13,6 +13,9 @@ const cutoff = 128 * 1024
 var allocated int64
 
 func Alloc(size int) ([]byte, error) {
+	if err := verifFailAlloc(size); err != nil {
+		return nil, err
+	}
 	if size < cutoff {
 		atomic.AddInt64(&allocated, int64(size))
 		return make([]byte, size), nil
